@@ -171,6 +171,11 @@ CORPUS = [
     # ports
     _c("http://a.com/p", ["port", "1"]), _c("http://a.com/p", ["port", "65535"]), _c("http://a.com:8080/p", ["port", None]),
     _c("https://a.com/p", ["port", "80"]), _c("http://u:p@a.com/p", ["port", "8080"]), _c("http://[::1]/p", ["port", "8080"]),
+    # FX-C04-a3404a2 / FX-C04-dcfec1d: what amp- was hiding; hints are searched in the cleaned url
+    _c("http://amp-www.a.com/x", ["case", "upper", 0]), _c("http://amp-www.a.com/x", ["label", "fr"]), _c("http://amp-m.a.co.uk/x", ["port", "8080"], ss=True),
+    _c("http://a.com/x?redirect=/z", ["norm", "control", 0]), _c("http://a.com/x?redirect=/z", ["norm", "control", 1]),
+    _c("http://a.com/x?redirect=/z", ["norm", "whitespace", 0]), _c("http://a.com/x?redirect=/z", ["norm", "whitespace", 3]),
+    _c("url=http://b.com/x", ["norm", "whitespace", 1]), _c("http://x.cdn.ampproject.org/c/", ["norm", "whitespace", 2]),
     # witnesses of the known findings (they must keep matching their predicates)
     _c("youtube.com/watch?v=abcdefghijk&t=1", ["swap", "com", "co.uk"], ss=True),
     _c("http://fr.com/", ["swap", "com", "co.uk"], ss=True),
